@@ -230,8 +230,8 @@ def run(ctx):
     for q_, f_ in repo.module("breezy/git/interrepo.py").functions().items():
         if not q_.endswith(".fetch_refs") or "overwrite" not in [a.arg for a in f_.args.args + f_.args.kwonlyargs]:
             continue
-        if any(isinstance(n_, ast.Raise) and "NotImplementedError" in norm(n_) for n_ in ast.walk(f_)) and len(f_.body) <= 2:
-            continue
+        if any(isinstance(st, ast.Raise) and "NotImplementedError" in norm(st) for st in f_.body):
+            continue  # the abstract declaration of the interface
         n_fr += 1
         reads = any(isinstance(n_, ast.Name) and n_.id == "overwrite" for st in f_.body for n_ in ast.walk(st))
         if q_ in OVERWRITE_ELSEWHERE and not reads:
